@@ -149,6 +149,13 @@ def run(ctx, model_available=True):
 
                     if msg_tuple(r2["msg"]) != m:
                         failures.append({"kind": "oracle", "sig": "C01:gateway-roundtrip", "desc": f"sent {m!r}, wire {line!r}, listened {msg_tuple(r2['msg'])!r}", "case": {"message": m, "line": line}})
+                    elif rng.random() < 0.3:
+                        # the application changes the message it was handed; the same line arrives again
+                        mo = r2["msg"]
+                        mo.payload, mo.ack, mo.message_type = "changed by the application", 1 - a, t + 1
+                        r3 = im.recv(line)
+                        if r3["msg"] is not None and msg_tuple(r3["msg"]) != m:
+                            failures.append({"kind": "oracle", "sig": "C01:gateway-roundtrip", "desc": f"line {line!r} decoded to {m!r}; after the application changed the yielded object the same line decodes to {msg_tuple(r3['msg'])!r}", "case": {"message": m, "line": line}})
         impls.append(im)
     # the same Message object sent again after its fields were changed: what is
     # written must be the encoding of the values it carries now
